@@ -332,18 +332,25 @@ def warm(obj):
     import contextlib
     reads = []
     if hasattr(obj, "array"):
-        reads += [lambda: obj.norm, lambda: obj.orientation, lambda: obj.valid.sum(),
-                  lambda: obj.mean(), lambda: obj.vdims, lambda: obj._valid_as_field]
+        f = obj
+        reads += [lambda: f.norm, lambda: f.orientation, lambda: f.valid.sum(),
+                  lambda: f.mean(), lambda: f.vdims, lambda: f._valid_as_field,
+                  lambda: f._r_dim_mapping]
         obj = obj.mesh
     if hasattr(obj, "n"):
-        reads += [lambda: obj.cell, lambda: len(obj), lambda: obj.dV, lambda: obj.cells,
-                  lambda: obj.vertices, lambda: obj.index2point((0,) * obj.region.ndim),
-                  lambda: obj.subregions]
+        m = obj
+        reads += [lambda: m.cell, lambda: len(m), lambda: m.dV, lambda: m.cells,
+                  lambda: m.vertices, lambda: m.index2point((0,) * m.region.ndim),
+                  lambda: m.subregions]
         obj = obj.region
-    reads += [lambda: obj.edges, lambda: obj.center, lambda: obj.volume, lambda: obj.multiplier]
-    for r in reads:
+    r = obj
+    reads += [lambda: r.edges, lambda: r.center, lambda: r.volume, lambda: r.multiplier]
+    done = 0
+    for read in reads:
         with contextlib.suppress(Exception):
-            r()
+            read()
+            done += 1
+    return done
 
 
 _HIST_RNG = None
